@@ -1122,17 +1122,17 @@ def probe_policy(chk: Check) -> tuple[dict, set]:
     spec = {"id": "cnn-probe", "kind": "cnn", "cfg": dict(input_shape=[2, 16, 16], num_outputs=3,
                                                           **small_cnn_cfg(ch=(2, 2), k=(3, 3), s=(1, 1)))}
     m = build(spec)
-    step = {"method": "change_kernel", "kwargs": {"kernel_size": 13, "hidden_layer": 1}, "clone": False}
+    step = {"method": "change_kernel", "kwargs": {"kernel_size": 15, "hidden_layer": 1}, "clone": False}
     try:
-        m.change_kernel(kernel_size=13, hidden_layer=1)
-        clamped = m.kernel_size[1] != 13
+        m.change_kernel(kernel_size=15, hidden_layer=1)
+        clamped = m.kernel_size[1] != 15
         bad = forward_check(spec, m, (1,))
     except Exception as e:
         clamped, bad = False, [f"{type(e).__name__}: {str(e)[:120]}"]
     if not clamped:
         policy["clamp_kernel"] = False
     if bad:
-        finding(FIND_KERNEL, "EvolvableCNN.change_kernel(kernel_size=13, hidden_layer=1) on 16x16 input with "
+        finding(FIND_KERNEL, "EvolvableCNN.change_kernel(kernel_size=15, hidden_layer=1) on 16x16 input with "
                 f"kernels [3,3]: the explicit kernel is larger than the 14x14 feature map -> {bad[0]}",
                 spec, [step], oracle_problems=bad)
     # Conv3d: the kwargs returned by change_kernel must be applicable to a twin (what critics receive)
@@ -1200,7 +1200,7 @@ def run(chk: Check) -> None:
         if quick:
             df, dg, cap = (1, 2, 140) if heavy else (2, 4, 500)
         else:
-            df, dg, cap = (2, 4, 1500) if heavy else (3, 6, 6000)
+            df, dg, cap = (2, 4, 700) if heavy else (3, 6, 2500)
         n, d = explore(chk, "explore", spec, policy, df, dg, True, known, cap)
         chk.suite("explore-" + spec["kind"], n, d)
     # walks
